@@ -196,6 +196,10 @@ func TicksLeft() int { return 0 }
 func AllowMainBlock()              {}
 func BlockForever()                { select {} }
 func LastDoneCheckSawClosed() bool { return false }
+
+// SleptSinceLastDoneCheck: the calling thread slept or waited for a timer after its
+// last look at a context's cancellation (engine only; false natively).
+func SleptSinceLastDoneCheck() bool { return false }
 func ThreadID() int                { return 0 }
 
 // RunReplay runs harness fn under the loaded counterexample and reports how it
